@@ -62,6 +62,9 @@ class Check(c01.Check):
                 vals = [rng.choice([0, 1, 2, -1, 0.5, 0.25, 440, 7]) for _ in range(size)]
                 sig.append([f'p{k}', rate, vals if size > 1 else vals[0]])
             sigs.append(sig)
+        # few names, many slots (array defaults beyond 255 slots), and many names
+        sigs.append([['big', rng.choice([None, 'kr', 'ir']), [k % 7 for k in range(rng.randint(256, 420))]], ['q', 'ir', 0.5]])
+        sigs.append([[f'n{k}', None, k % 5] for k in range(rng.choice([40, 120, 255]))])
         # in half of the definitions the output bus is one of the scalar parameters: the reader must
         # name that parameter as the starting channel of the output
         bus = {}
@@ -75,6 +78,30 @@ class Check(c01.Check):
             return []
         out = []
         self._desc_probe = len(res)
+        # every constructible unit class: one definition each, strictly parsed and read back
+        sw, err = common.run_impl('c01', 'class_sweep', {'mode': 'nrt'}, timeout=900)
+        if sw is None:
+            self.notes.append('class sweep failed: ' + err[-300:])
+        else:
+            self._class_sweep = len(sw)
+            for name, ctor, argkind, status in sw:
+                if status != 'ok':
+                    out.append({'what': f'definition with one {name}.{ctor}({"" if argkind == "none" else argkind}) unit: {status}',
+                                'signature': f'c02:class-sweep:{name}', 'case': {'class': name, 'ctor': ctor, 'arg': argkind}})
+        # units whose first input must run at their own rate, given the other rate: must be rejected
+        import json as _json
+        srref = _json.loads((common.VERIF / 'harness/c02_srfirst_ref.json').read_text())
+        sr, err = common.run_impl('c01', 'srfirst_probe', {'mode': 'nrt', 'classes': sorted(srref)}, timeout=900)
+        if sr is None:
+            self.notes.append('first-input-rate probe failed: ' + err[-300:])
+        else:
+            self._srfirst_probe = len(sr)
+            for name, ctor, status in sr:
+                if status == 'compiled' and ctor in srref.get(name, []):
+                    other = 'audio' if ctor == 'kr' else 'control'
+                    out.append({'what': f'{name}.{ctor}(<{other}-rate signal>): the first input must run at the unit\'s own rate; '
+                                        'the graph was compiled to bytes instead of rejected',
+                                'signature': f'c02:first-input-rate-accepted:{name}', 'case': {'class': name, 'ctor': ctor}})
         for si, (sig, r) in enumerate(zip(sigs, res)):
             if 'error' in r:
                 out.append({'what': f'definition with parameters {sig} not built/read: {r["error"]}',
